@@ -108,6 +108,19 @@ impl Display for XsdDateTime {
     }
 }
 
+impl XsdDateTime {
+    /// The instant denoted by this dateTime, considering that it is UTC if it has no timezone.
+    ///
+    /// This provides a total order that is consistent with `partial_cmp`
+    /// whenever the latter is defined.
+    pub fn utc_instant(&self) -> NaiveDateTime {
+        match self {
+            XsdDateTime::Naive(d) => *d,
+            XsdDateTime::Timezoned(d) => d.naive_utc(),
+        }
+    }
+}
+
 impl PartialOrd for XsdDateTime {
     fn partial_cmp(&self, other: &Self) -> Option<Ordering> {
         match (self, other) {
